@@ -70,26 +70,34 @@ class UnionDomain(Domain):
         return self._sample_random_with_d(d, params, device)
 
     def _sample_random_with_n(self, n, params=Points.empty(), device="cpu"):
-        # sample n points in both domains
-        points_a = self.domain_a.sample_random_uniform(
-            n=n, params=params, device=device
-        )
-        points_b = self.domain_b.sample_random_uniform(
-            n=n, params=params, device=device
-        )
-        # check which points of domain b are in domain a
         _, repeated_params = self._repeat_params(n, params)
-        in_a = self.domain_a._contains(points=points_b, params=repeated_params)
         # approximate volume of this domain
         volume_approx, volume_a, _ = self._get_volume(
             return_value_of_a_b=True, params=repeated_params, device=device
         )
         volume_ratio = torch.divide(volume_a, volume_approx)
-        # choose points depending of the proportion of the domain w.r.t. the
-        # whole domain union
-        rand_index = torch.rand((max(n, len(repeated_params)), 1), device=device)
-        rand_index = torch.logical_or(in_a, rand_index <= volume_ratio)
-        points = torch.where(rand_index, points_a, points_b)
+        num_of_points = max(n, len(repeated_params))
+        points = torch.zeros((num_of_points, self.space.dim), device=device)
+        missing = torch.ones((num_of_points, 1), dtype=bool, device=device)
+        while torch.any(missing):
+            # sample n points in both domains
+            points_a = self.domain_a.sample_random_uniform(
+                n=n, params=params, device=device
+            )
+            points_b = self.domain_b.sample_random_uniform(
+                n=n, params=params, device=device
+            )
+            # check which points of domain b are in domain a
+            in_a = self.domain_a._contains(points=points_b, params=repeated_params)
+            # choose the domain depending of the proportion of the domain w.r.t.
+            # the whole domain union; a point of b that lays in a is rejected
+            # (this part is already covered by a), so the sampling stays uniform
+            take_a = torch.rand((num_of_points, 1), device=device) <= volume_ratio
+            accepted = torch.logical_or(take_a, torch.logical_not(in_a))
+            new_points = torch.where(take_a, points_a.as_tensor, points_b.as_tensor)
+            update = torch.logical_and(missing, accepted).reshape(-1)
+            points[update] = new_points[update].to(points.dtype)
+            missing = torch.logical_and(missing, torch.logical_not(accepted))
         return Points(points, self.space)
 
     def _sample_random_with_d(self, d, params=Points.empty(), device="cpu"):
